@@ -31,7 +31,7 @@ TECHNIQUE = (
     "on each, transform(training data) is compared label by label with scores() of the same object"
 )
 RULE = (
-    "union of three complete products over the 19 transform-capable classes (EOF, ComplexEOF, SparsePCA, POP, EOFRotator, ComplexEOFRotator; "
+    "union of four complete products over the 19 transform-capable classes (EOF, ComplexEOF, SparsePCA, POP, EOFRotator, ComplexEOFRotator; "
     "CPCCA, MCA, CCA, RDA and Complex*; CPCCARotator, MCARotator, ComplexCPCCARotator, ComplexMCARotator; multi.CCA). "
     "(S) structure sweep, one pinned configuration per class: container {DataArray, Dataset, list} x sample dims {1, 2} x sample labels {ascending, unsorted} "
     "x mask {none, one sample all-NaN, one feature all-NaN, both} x preprocessing {default, center off (single-set), standardize+weights(+coslat) (single- and cross-set)} "
@@ -43,7 +43,12 @@ RULE = (
     "cross rotators alpha^2 x PCA x k x power x spectrum (quick: alpha in {0,.5,1}^2 x PCA {off,3} at k=3, power 2, plus power {1,3} on three whitening pairs); multi.CCA views {2,3} x pca x c x n_modes. "
     "(P) provenance sweep: {refitted on the same object after a fit on other data, dask input + compute=False then compute(), serialize->deserialize, "
     "rotator_reused = the judged rotator object first rotated another model fitted on other data and answered one transform, "
-    "model_reused = fit(other data); transform(other data); fit(judged data) on one object} x class x container (quick: DataArray, no mask). "
+    "model_reused = fit(other data); transform(other data); fit(judged data) on one object, "
+    "after_rotator = the judged unrotated model (the six classes that have a rotator) was handed to rotator.fit before being asked} x class x container (quick: DataArray, no mask). "
+    "(L) X/Y-label sweep, every cross-set class incl. rotators: Y's sample labels lagged by 100 (same count, labels disjoint from X's) x sample structure "
+    "{one plain dim, two sample dims, pandas MultiIndex on the single sample dim} x mask {none, sample} x container (quick: DataArray; all 12 classes on the two "
+    "bookkeeping structures, primary classes also on the plain dim, primary non-rotators with a missing sample on two dims). "
+    "The structure sweep also takes the MultiIndex sample dim (ascending labels, default preprocessing; quick: primary classes, DataArray, mask {none, sample}). "
     "Within every case: normalized in {False, True} and, for cross-set classes, call form in {X and Y, X only, Y only}. "
     "A case is non-trivial when both answers were returned, contain finite non-zero numbers and were compared at >= 1 valid sample label"
 )
@@ -51,13 +56,14 @@ ASSUMPTIONS = [
     "the numeric catalogue (fixed spectra/shapes, orthogonal factors drawn from VERIF_SEED) stands for 'all inputs'",
     "n_modes never exceeds the numeric rank of the (reduced) data and SparsePCA's penalty (alpha <= 1e-2) leaves every component non-zero: a mode of zero variance has no normalised score (0/0) and is outside the quantifier",
     "alpha < 1 without PCA is enumerated only on fields with non-singular covariance (features <= valid samples - 1), as in C09",
-    "cross-set inputs with missing samples have them at the same sample labels in X and Y (differing positions are C06's subject)",
+    "cross-set inputs with missing samples have them at the same sample positions in X and Y (differing positions are C06's subject); "
+    "lagged Y labels are a constant offset of X's, so the pairing of samples by position is unambiguous",
     "complex input is not combined with dask (documented refusal, DESIGN 3.4); multi.CCA offers neither compute=False provenance nor serialisation; "
     "rotator_reused applies to the six rotator classes, model_reused to the thirteen others",
     "deferred rotators pin max_iter=16 (DESIGN 2.2); the relation is independent of whether the rotation converged because both answers use the one stored rotation matrix",
     "Hilbert* classes are not in the alphabet: their transform is a documented refusal",
 ]
-TALLY_KEYS = ("sweep", "family", "model", "container", "sdims", "mask", "flags", "prov")
+TALLY_KEYS = ("sweep", "family", "model", "container", "sdims", "ylabels", "mask", "flags", "prov")
 TRUSTED = ["statsmodels import shim (/verif/shims) so that xeofs.cross constructors can be called"]
 MAX_REFUSED_FRACTION = 0.10
 
@@ -82,7 +88,8 @@ SECONDARY = ("CCA", "RDA", "ComplexMCA", "ComplexCCA", "ComplexRDA", "ComplexEOF
 CONTAINERS = ("DataArray", "Dataset", "list")
 MASKS = ("none", "sample", "feature", "both")
 FLAGS = ("default", "nocenter", "std_w")
-PROVS = ("fresh", "refit", "deferred", "deserialized", "rotator_reused", "model_reused")
+PROVS = ("fresh", "refit", "deferred", "deserialized", "rotator_reused", "model_reused", "after_rotator")
+ROTATOR_OF = {"EOF": "EOFRotator", "ComplexEOF": "ComplexEOFRotator", "CPCCA": "CPCCARotator", "MCA": "MCARotator", "ComplexCPCCA": "ComplexCPCCARotator", "ComplexMCA": "ComplexMCARotator"}
 
 
 # ----------------------------------------------------------------------------- alphabet
@@ -127,6 +134,7 @@ def _case(sweep, model, **kw):
         ycontainer="DataArray",
         sdims=1,
         labels="ascending",
+        ylabels="same",
         mask="none",
         flags="default",
         prov="fresh",
@@ -181,11 +189,18 @@ def _structure_cases(tier):
         rot = model in SINGLE_ROT or model in CROSS_ROT
         fam = _family(model)
         for container in CONTAINERS:
-            for sdims in (1, 2):
+            for sdims in (1, 2, "mi"):
                 for labels in ("ascending", "unsorted"):
                     for mask in MASKS:
                         for flags in FLAGS:
-                            if tier == "quick":
+                            if sdims == "mi":
+                                # a pandas MultiIndex on the single sample dim: ascending labels, default preprocessing;
+                                # quick: primary classes, DataArray, mask {none, sample}
+                                if labels != "ascending" or flags != "default":
+                                    continue
+                                if tier == "quick" and (model in SECONDARY or container != "DataArray" or mask not in ("none", "sample")):
+                                    continue
+                            elif tier == "quick":
                                 # stated sub-product of the quick tier
                                 if model in SECONDARY and not (sdims == 1 and labels == "ascending" and flags == "default" and mask in (("none",) if rot else ("none", "sample"))):
                                     continue
@@ -317,6 +332,8 @@ def _prov_applicable(model, prov):
         return is_rot
     if prov == "model_reused":
         return not is_rot
+    if prov == "after_rotator":
+        return model in ROTATOR_OF
     if model == "multi.CCA":
         return prov == "refit"
     if prov == "deferred" and _is_cplx(model):
@@ -338,11 +355,35 @@ def _provenance_cases(tier):
     return out
 
 
+def _xy_label_cases(tier):
+    """Cross-set fields whose sample labels differ (Y lagged by LAG years: same count, other labels) x how the sample labels
+    come back (one plain dim: they ride along; two sample dims or a MultiIndex: restored from each field's own bookkeeping)."""
+    out = []
+    for model in CROSS + list(CROSS_ROT):
+        primary = model not in SECONDARY
+        for sdims in (1, 2, "mi"):
+            for mask in ("none", "sample"):
+                for container in CONTAINERS:
+                    if tier == "quick":
+                        # every cross-set class on the two bookkeeping structures; primary classes also on the plain dim and
+                        # (non-rotators) with a missing sample
+                        if container != "DataArray":
+                            continue
+                        if sdims == 1 and not (primary and mask == "none"):
+                            continue
+                        if mask == "sample" and not (primary and model in CROSS and sdims == 2):
+                            continue
+                    c = _case("xylabels", model, ylabels="lagged", sdims=sdims, mask=mask, container=container, ycontainer=container)
+                    if _admissible(c):
+                        out.append(c)
+    return out
+
+
 def cases(tier, seed):
-    out = _structure_cases(tier) + _config_cases(tier) + _provenance_cases(tier)
+    out = _structure_cases(tier) + _config_cases(tier) + _provenance_cases(tier) + _xy_label_cases(tier)
     order = {m: i for i, m in enumerate(ALL_CLASSES)}
-    sw = {"structure": 0, "config": 1, "provenance": 2}
-    simple = lambda c: (c["container"] != "DataArray") + (c["sdims"] - 1) + (c["mask"] != "none") + (c["flags"] != "default") + (c["labels"] != "ascending")  # noqa: E731
+    sw = {"structure": 0, "config": 1, "provenance": 2, "xylabels": 3}
+    simple = lambda c: (c["container"] != "DataArray") + (c["sdims"] != 1) + (c["ylabels"] != "same") + (c["mask"] != "none") + (c["flags"] != "default") + (c["labels"] != "ascending")  # noqa: E731
     out.sort(key=lambda c: (c["rot"] is not None, sw[c["sweep"]], simple(c), order[c["model"]]))
     seen, uniq = set(), []
     for c in out:
@@ -380,17 +421,26 @@ def _layout(role, container):
     return [e, ("f", [("v", ["k", "l"])])]
 
 
-def sample_coords(sdims, labels):
-    """(list of (dim, labels)), and the label tuple of every sample in matrix row order."""
+LAG = 100  # offset of the Y field's time/year labels when ylabels == "lagged" (a lagged field: same count, other years)
+
+
+def sample_coords(sdims, labels, lag=0):
+    """(list of (dim, labels)), the label tuple of every sample in matrix row order, and the pandas MultiIndex when the
+    single sample dimension carries one (sdims == "mi": levels year x mon; a sample's label is then the tuple (year, mon))."""
     nt = N if sdims == 1 else N // 2
-    t = np.arange(nt) * 2 + 1
+    t = np.arange(nt) * 2 + 1 + lag
     if labels == "unsorted":
         t = t[[(i * 5 + 3) % nt for i in range(nt)]]
     t = [int(v) for v in t]
     if sdims == 1:
-        return [("time", t)], [(v,) for v in t]
+        return [("time", t)], [(v,) for v in t], None
+    if sdims == "mi":
+        import pandas as pd
+
+        mi = pd.MultiIndex.from_product([t, [1, 2]], names=("year", "mon"))
+        return [("time", list(range(N)))], [((y, m),) for y in t for m in (1, 2)], mi
     runs = ["r0", "r1"]
-    return [("time", t), ("run", runs)], [(v, r) for v in t for r in runs]
+    return [("time", t), ("run", runs)], [(v, r) for v in t for r in runs], None
 
 
 def build_field(case, seed, role, which="D1"):
@@ -405,7 +455,8 @@ def build_field(case, seed, role, which="D1"):
     M = D.make_matrix(N, p, case["spec"], 1.0, case["cplx"], seed, salt=salt)
     if which == "D2":
         M = M * 2.0 + 5.0
-    sc, keys = sample_coords(case["sdims"], case["labels"])
+    lag = LAG if (role == "Y" and case.get("ylabels", "same") == "lagged") else 0
+    sc, keys, mi = sample_coords(case["sdims"], case["labels"], lag)
     M = M.copy()
     mask = case["mask"]
     if mask in ("sample", "both"):
@@ -423,6 +474,8 @@ def build_field(case, seed, role, which="D1"):
         coords = {d: l for d, l in sc}
         coords.update({d: l for d, l in fdims})
         da = xr.DataArray(arr, dims=dims, coords=coords, name=name)
+        if mi is not None:
+            da = da.drop_vars("time").assign_coords(xr.Coordinates.from_pandas_multiindex(mi, "time"))
         arrays.append(da)
         rng = np.random.default_rng([int(seed), 77, salt % 10, j])
         w = 0.5 + 2.0 * rng.random([len(l) for _, l in fdims])
@@ -560,6 +613,12 @@ def realize(case, seed):
     if rot is not None:
         rot.fit(m)
         subject = rot
+    if prov == "after_rotator":
+        # the judged (unrotated) model has meanwhile been handed to a rotator; its own answers must not have moved
+        import xeofs as xe
+
+        rcls = getattr(xe.single if fam == "single" else xe.cross, ROTATOR_OF[case["model"]])
+        rcls(n_modes=min(3, case["n_modes"]), power=2).fit(m)
     if prov == "deferred":
         subject.compute()
     if prov == "deserialized":
@@ -677,9 +736,9 @@ def _scope(failed, evaluated):
 def _run(case, seed):
     fam = case["family"]
     mname = case["model"]
-    plain = case["container"] == "DataArray" and case["ycontainer"] == "DataArray" and case["sdims"] == 1 and case["labels"] == "ascending" and case["mask"] == "none" and case["flags"] == "default" and case["prov"] == "fresh"
+    plain = case["container"] == "DataArray" and case["ycontainer"] == "DataArray" and case["sdims"] == 1 and case["labels"] == "ascending" and case["ylabels"] == "same" and case["mask"] == "none" and case["flags"] == "default" and case["prov"] == "fresh"
     structure = "plain" if plain else "varied"
-    if case["prov"] in ("refit", "rotator_reused", "model_reused"):
+    if case["prov"] in ("refit", "rotator_reused", "model_reused", "after_rotator"):
         structure = "history:" + case["prov"]  # the judged object carried earlier fitted state
     V = []
 
@@ -697,6 +756,7 @@ def _run(case, seed):
         raise
     tol = TOL if case["solver"] == "full" else TOL_APPROX
     info.update(family=fam, model=mname, prov=case["prov"], container=case["container"], mask=case["mask"], rot=bool(case["rot"]),
+                sdims=str(case["sdims"]), ylabels=case["ylabels"],
                 power1=(case["rot"][1] == 1) if case["rot"] else None, alpha_lt_1=bool(min(case["alpha"]) < 1.0) if fam == "cross" else None)
     compared = 0
     nonzero = False
@@ -806,9 +866,11 @@ def _run(case, seed):
 
 
 def _brief(c):
-    parts = ["%s" % c["container"], "sdims=%d" % c["sdims"], "mask=%s" % c["mask"], "flags=%s" % c["flags"], "prov=%s" % c["prov"], "n_modes=%s" % c["n_modes"]]
+    parts = ["%s" % c["container"], "sdims=%s" % c["sdims"], "mask=%s" % c["mask"], "flags=%s" % c["flags"], "prov=%s" % c["prov"], "n_modes=%s" % c["n_modes"]]
     if c["labels"] != "ascending":
         parts.append("labels=%s" % c["labels"])
+    if c.get("ylabels", "same") != "same":
+        parts.append("Y sample labels=%s" % c["ylabels"])
     if c["family"] == "cross":
         parts += ["alpha=%s" % c["alpha"], "pca=%s" % c["pca"], "Y=%s" % c["ycontainer"]]
         if c["base"] != _base_of(c["model"]):
@@ -855,6 +917,10 @@ def vacuity(outcomes, results, tier):
         lackv = [v for v in vals if v not in seen]
         if lackv:
             return "%s values never judged: %s" % (key, lackv)
+    for model in CROSS + list(CROSS_ROT):
+        for sd in ("2", "mi"):
+            if not any(i["model"] == model and i["ylabels"] == "lagged" and i["sdims"] == sd and i.get("compared", 0) > 0 for i in judged):
+                return "%s: X and Y with different sample labels were never compared on sample structure %s (labels restored from per-field bookkeeping)" % (model, sd)
     masked = [i for i in judged if i["mask"] in ("sample", "both")]
     if not masked or not any(i.get("missing_repr") for i in masked):
         return "no case with an entirely missing sample reached the comparison"
